@@ -5,16 +5,17 @@ use serde_json::{json, Value};
 use tower::{Layer, Service};
 use tower_resilience_coalesce::{CoalesceError, CoalesceLayer};
 
-fn keyfn(r: &Req) -> u32 {
-    r.key
+fn keyfn(r: &Req) -> CKey {
+    CKey(r.key)
 }
-type Svc = <CoalesceLayer<u32, Req, fn(&Req) -> u32> as Layer<Inner>>::Service;
+type Svc = <CoalesceLayer<CKey, Req, fn(&Req) -> CKey> as Layer<Inner>>::Service;
 pub struct CoalesceAd {
     svc: Option<Handles<Svc>>,
+    sib: Vec<Sibling>,
 }
 impl CoalesceAd {
     pub fn new() -> Self {
-        CoalesceAd { svc: None }
+        CoalesceAd { svc: None, sib: vec![] }
     }
 }
 impl Adapter for CoalesceAd {
@@ -22,14 +23,20 @@ impl Adapter for CoalesceAd {
         "coalesce"
     }
     fn gen_cfg(&mut self, _rng: &mut Rng, _size: Size) -> Value {
-        json!({"hm": _rng.below(4), "x": 0, "ctor": _rng.below(2)})
+        json!({"hm": _rng.below(4), "x": 0, "ctor": _rng.below(2), "sib": _rng.below(2)})
     }
     fn build(&mut self, cfg: &Value, sim: &mut Sim) {
-        let layer: CoalesceLayer<u32, Req, fn(&Req) -> u32> = if cfg["ctor"].as_u64().unwrap_or(0) == 1 {
-            CoalesceLayer::builder(keyfn as fn(&Req) -> u32).name("verif").build()
+        let layer: CoalesceLayer<CKey, Req, fn(&Req) -> CKey> = if cfg["ctor"].as_u64().unwrap_or(0) == 1 {
+            CoalesceLayer::builder(keyfn as fn(&Req) -> CKey).name("verif").build()
         } else {
-            CoalesceLayer::new(keyfn as fn(&Req) -> u32)
+            CoalesceLayer::new(keyfn as fn(&Req) -> CKey)
         };
+        // cfg.sib = 1: a second coalescer built from the same layer value has leaders of the same keys in flight
+        self.sib.clear();
+        if cfg["sib"].as_u64().unwrap_or(0) == 1 {
+            let w2 = sibling_world();
+            self.sib.push(sibling_traffic(layer.layer(Inner::new(&w2)), w2, 5));
+        }
         self.svc = Some(Handles::new(layer.layer(Inner::new(&sim.w)), cfg["hm"].as_u64().unwrap_or(0)));
     }
     fn mk(&mut self, req: &Req) -> CallFut {
@@ -64,5 +71,6 @@ impl Adapter for CoalesceAd {
     }
     fn teardown(&mut self) {
         self.svc = None;
+        self.sib.clear();
     }
 }
